@@ -183,4 +183,100 @@ def run (c : Ctx) : List Op → Ctx
   | op :: ops => run (if op.permitted c then step c op else c) ops
 
 end Reply
+
+/-
+  Stream-input variant (mptio/stream/stream_input.c: streamMessage / streamReply, stream_reply.c),
+  after the fix: commits 81aa601, f5fcb48, d3df38a, 7541cab.  The stream holds ONE reply_data
+  (`rd._max = idlen`); a request arms it for the duration of the handler call; `defer` is not
+  supported; what the handler leaves unanswered gets the default reply (answer header) at once.
+-/
+namespace StreamIn
+open Mpt.ReplySpec (mark)
+
+structure SIn where
+  idlen : Nat
+  rdlen : Nat            -- rd.len
+  val : List Byte        -- rd.val[0..idlen)
+  deriving Repr, DecidableEq
+
+/-- what the scripted handler does with `ev->reply` -/
+inductive Act where
+  | reply (msg : List Byte)
+  | replyNull
+  | defer
+  | ret (v : Int)
+  deriving Repr, DecidableEq
+
+/-- `streamReply(rc, msg)`; `accept` = `mpt_stream_reply` succeeds (the stream takes the frame).
+    Result: return code, state, frame handed to the stream (id bytes ++ message) -/
+def sreply (s : SIn) (msg : Option (List Byte)) (accept : Bool) : Int × SIn × Option (List Byte) :=
+  if s.rdlen = 0 then (Err.BadArgument.code, s, none)
+  else if accept then (0, { s with rdlen := 0, val := mark s.val }, some ((mark s.val).take s.rdlen ++ msg.getD []))
+  else (Err.BadArgument.code, { s with val := Reply.unmark (mark s.val) }, none)
+
+structure HRes where
+  s : SIn
+  ret : Int := 0
+  results : List String := []
+  frames : List (List Byte) := []
+  deriving Repr, DecidableEq
+
+/-- the handler performs its acts in order -/
+def runActs (ctx : Bool) : List Act → HRes → HRes
+  | [], h => h
+  | a :: as, h =>
+    match a with
+    | .ret v => runActs ctx as { h with ret := v, results := h.results ++ ["ret"] }
+    | .defer => runActs ctx as { h with results := h.results ++ [if ctx then "nodefer" else "noctx"] }
+    | .reply m =>
+      if !ctx then runActs ctx as { h with results := h.results ++ ["noctx"] } else
+      let r := sreply h.s (some m) true
+      runActs ctx as { h with s := r.2.1, results := h.results ++ [if r.1 < 0 then "refused" else "ok"],
+                              frames := h.frames ++ r.2.2.toList }
+    | .replyNull =>
+      if !ctx then runActs ctx as { h with results := h.results ++ ["noctx"] } else
+      let r := sreply h.s none true
+      runActs ctx as { h with s := r.2.1, results := h.results ++ [if r.1 < 0 then "refused" else "ok"],
+                              frames := h.frames ++ r.2.2.toList }
+
+structure ReqRes where
+  s : SIn
+  called : Bool
+  ctx : Bool
+  evid : Nat
+  results : List String
+  frames : List (List Byte)
+  ret : Int
+  deriving Repr, DecidableEq
+
+/-- `int8_t` view of the answer code -/
+def codeByte (r : Int) : Byte := UInt8.ofNat ((if r < 0 then r + 256 else 0).toNat % 256)
+
+/-- `streamMessage`: one incoming message `data` (id header ++ payload) -/
+def request (s : SIn) (data : List Byte) (acts : List Act) : ReqRes :=
+  if s.idlen = 0 then
+    let h := runActs false acts { s := s }
+    ⟨h.s, true, false, 0, h.results, h.frames, h.ret⟩
+  else if data.length < s.idlen then ⟨s, false, false, 0, [], [], Err.BadValue.code⟩
+  else
+    let val := data.take s.idlen
+    if (val.headD 0).toNat ≥ 128 then
+      -- a reply to one of our own requests: the handler gets its id, no reply context
+      let v := Reply.unmark val
+      match MsgId.buf2id v with
+      | .ok (rid, _) =>
+        let h := runActs false acts { s := { s with val := v } }
+        ⟨h.s, true, false, rid, h.results, h.frames, h.ret⟩
+      | _ => ⟨{ s with val := v }, false, false, 0, [], [], Err.BadValue.code⟩
+    else
+      let ctx := val.any (· ≠ 0)
+      let s1 : SIn := { s with val := val, rdlen := if ctx then s.idlen else s.rdlen }
+      let h := runActs ctx acts { s := s1 }
+      -- generic reply for what the handler left unanswered
+      if ctx ∧ h.s.rdlen ≠ 0 then
+        let r := sreply h.s (some [1, codeByte h.ret]) true
+        ⟨r.2.1, true, ctx, 0, h.results, h.frames ++ r.2.2.toList, h.ret⟩
+      else ⟨h.s, true, ctx, 0, h.results, h.frames, h.ret⟩
+
+end StreamIn
 end Mpt
